@@ -27,11 +27,26 @@ func boxedVarsOf(fi *FuncInfo) map[types.Object]bool {
 		if !ok || u.Op != token.AND {
 			return true
 		}
-		if id, ok := unparen(u.X).(*ast.Ident); ok {
-			if v, ok := info.ObjectOf(id).(*types.Var); ok && !isGlobal(v) {
-				// &x passed to sync/atomic on a plain local is still a cell
-				out[v] = true
+		x := unparen(u.X)
+		// &x, &x.f, &x.f.g : x escapes when it is a local struct value (not when the path goes through a pointer)
+		for {
+			if id, ok := x.(*ast.Ident); ok {
+				if v, ok := info.ObjectOf(id).(*types.Var); ok && !isGlobal(v) {
+					out[v] = true
+				}
+				break
 			}
+			sel, ok := x.(*ast.SelectorExpr)
+			if !ok {
+				break
+			}
+			if s := info.Selections[sel]; s == nil || s.Kind() != types.FieldVal {
+				break
+			}
+			if _, _, isPtr := structOf(info.TypeOf(sel.X)); isPtr {
+				break
+			}
+			x = unparen(sel.X)
 		}
 		return true
 	})
